@@ -368,6 +368,27 @@ func runOne(r *sim.Run) {
 					return
 				}
 			}
+			// C35: "a verdict counts as good with a two-thirds-plus-one supermajority of positive votes, bad with none and
+			// wonky with one third": a block whose verdicts all carry one of these three counts, refused because of its
+			// vote split, was classified as "any other count"
+			if r.Prop == "C35" && strings.Contains(strings.ReplaceAll(err.Error(), " ", "_"), "bad_vote_split") {
+				allowed := len(b.Extrinsic.Disputes.Verdicts) > 0
+				for _, v := range b.Extrinsic.Disputes.Verdicts {
+					pos := 0
+					for _, j := range v.Votes {
+						if j.Vote {
+							pos++
+						}
+					}
+					if pos != 0 && pos != types.ValidatorsCount/3 && pos != types.ValidatorsCount*2/3+1 {
+						allowed = false
+					}
+				}
+				if allowed {
+					r.Violate("C35", "classification", "verdict-with-allowed-vote-count-refused", "block depth %d slot %d: every verdict has 0, one third or two thirds plus one positive votes, a clean node refuses the block: %v", cb.depth, b.Header.Slot, err)
+					return
+				}
+			}
 			plain := merklization.MerklizationSerializedState(parent.kvs)
 			r.Logf("author bug? scratch node rejected block at depth %d slot %d (parent depth %d root %x, uncached root of parent export %x): %v", cb.depth, b.Header.Slot, parent.depth, parent.root[:4], plain[:4], err)
 			// the scratch node may now be in the state a rejected block leaves behind: start it again from the parent path
